@@ -133,6 +133,7 @@ def run_tree(prop, tier, res, want, variants, budget, events=100):
     t0 = time.time()
     rcs = vlib.run_parallel(tl, timeout=2400, maxpar=8)
     lines = 0
+    saved_traces = []
     kinds = collections.Counter()
     classes = collections.Counter()
     allcls = collections.Counter()
@@ -167,7 +168,20 @@ def run_tree(prop, tier, res, want, variants, budget, events=100):
                         window = {"scenario_header": ls[begin].strip(), "lines_before": [x.strip() for x in ls[max(begin, ln - 80):ln - 1]], "rejected_line": ls[ln - 1].strip()}
                     except Exception:
                         window = None
-                res.classify(cls, txt, artefact={"trace": os.path.basename(f), "line": ln, "seed": vlib.seed(), "tier": tier, "trace_window": window})
+                saved = None
+                if not saved_traces and os.path.getsize(f) < 60 * 1024 * 1024:
+                    # keep the whole recorded trace of the first rejected file next to the replay artefacts
+                    try:
+                        dd = os.path.join(os.environ.get("VERIF_REPLAY_DIR", os.path.join(vlib.VERIF, "replays")), prop)
+                        os.makedirs(dd, exist_ok=True)
+                        saved = os.path.join(dd, "trace-%d-%s" % (int(time.time()), os.path.basename(f)))
+                        import shutil as _sh
+                        _sh.copy(f, saved)
+                        saved_traces.append(saved)
+                    except Exception:
+                        saved = None
+                res.classify(cls, txt, artefact={"trace": os.path.basename(f), "line": ln, "seed": vlib.seed(), "tier": tier, "trace_window": window,
+                                                 "full_trace": saved or (saved_traces[0] if saved_traces else None)})
         if len(samples) < 2:
             with open(f) as fh:
                 ls = fh.readlines()
